@@ -762,8 +762,14 @@ def _oracle_call(case, ns, call, viol, obs):
         v = given.get(a, defaults[a])
         k = owner(a)
         hand = cdefs[k].get("hand") if k else None
+        alt = None
         if hand is not None and k != k0:
             v = given.get(a, nearest_default(a, upto=k)[0])
+            if v is None and a not in given and defaults[a] is not None:
+                # the owner re-annotates `a` without a default and a class further along the MRO still assigns one:
+                # that class-level default is "the nearest default along the MRO" as well (the generated constructor
+                # hands it to the hand-written one); the property text does not say which of the two wins
+                alt = defaults[a]
             p = [p for p in hand if p["name"] == a]
             if not p:
                 if a in given or defaults[a] is not None:
@@ -791,6 +797,8 @@ def _oracle_call(case, ns, call, viol, obs):
                     or_value_error.append(a)  # a collection rejects a foreign item with ValueError
                 continue
         exp[a] = [None] if v is None else prepared(a, v)
+        if alt is not None and conforms(case["types"][a], alt):
+            exp[a] = list(exp[a]) + [x for x in prepared(a, alt) if x not in exp[a]]
     # a hand-written parent constructor only receives the attributes it owns: a required parameter that
     # nothing supplies makes Python raise TypeError
     for k in spec_mro[1:]:
